@@ -19,13 +19,22 @@ LEVEL = 'model_checking'
 TECHNIQUE = 'symbolic execution of rustc MIR (serde derive output of every settings type) against a recording Serializer / replaying Deserializer; symbolic field values compared as z3 terms'
 
 def _types(mir):
-    """(type name, serialize fn, impl span of the Deserialize derive) for every type with derived Serialize in the crate"""
+    """(type name, serialize fn, file, line of the Deserialize derive) for every type that has a Serialize impl (derived or hand-written: any
+    `serialize(&T, S) -> Result<S::Ok, S::Error>`) and a derived Deserialize"""
+    de = {}
+    for n, f in mir.fns.items():
+        mm = re.match(r'^(.*)::_::<impl at (src/[^:]+):(\d+):\d+: \d+:\d+>::deserialize$', n)
+        if not mm: continue
+        f.parse(); r = re.match(r'^(?:std::result::)?Result<([A-Za-z_]\w*)', f.ret.strip())
+        if r: de[r.group(1)] = (mm.group(2), int(mm.group(3)))
     out = []
     for n, f in mir.fns.items():
-        mm = re.match(r'^(.*)::_::<impl at (src/[^:]+):(\d+):\d+: \d+:\d+>::serialize$', n)
-        if not mm: continue
-        f.parse(); ty = re.sub(r'<.*$', '', f.args[0][1].lstrip('&').strip())
-        out.append((ty, f, mm.group(2), int(mm.group(3))))
+        if not n.endswith('::serialize') or n.count('::serialize') != 1: continue
+        f.parse()
+        if len(f.args) != 2 or 'Serializer>::Ok' not in f.ret: continue
+        ty = re.sub(r'<.*$', '', f.args[0][1].lstrip('&').strip())
+        if ty.startswith('__') or ty not in de: continue
+        out.append((ty, f, de[ty][0], de[ty][1]))
     return sorted(out, key=lambda t: t[0])
 
 def _de_fns(mir, file, line):
@@ -43,17 +52,44 @@ def _install(vm, mir, fns):
     A = vm.alg
     def log(m, *e): m.log('entries', e)
     # ---- Serializer side
-    vm.add_model(r'^<__S as Serializer>::serialize_struct$', lambda vm, m, c, a: (log(m, 'struct', a[1].s, a[2]), ret(m, OK(Struct(('state',), 'SerState'))))[1])
+    vm.add_model(r'^<(?:__)?S as Serializer>::serialize_struct$', lambda vm, m, c, a: (log(m, 'struct', a[1].s, a[2]), ret(m, OK(Struct(('state',), 'SerState'))))[1])
     def ser_field(vm, m, c, a):
         v = deref_val(vm, m, a[2]); ty = re.search(r'serialize_field::<(.*)>$', c).group(1)
+        if '__SerializeWith' in ty:
+            # `serialize_with` / `with`: the derive wraps the field; the wrapper's Serialize impl (crate MIR) calls the user's function, which talks to a
+            # value-level serializer: the tree of primitive calls it makes is what gets written
+            cands = [f for n_, f in mir.fns.items() if n_.endswith('::serialize') and f.parse().args and f.args[0][1].lstrip('&').startswith('__SerializeWith')]
+            span = getattr(vm.cur_fn, 'name', '')
+            pre = re.match(r'^(.*::_::<impl at [^>]+>)', span)
+            if pre: cands = [f for f in cands if f.name.startswith(pre.group(1))] or cands
+            if len(cands) != 1: raise Unmodelled('serialize_with wrapper: %d candidates' % len(cands))
+            outs = []
+            for (m2, k, r) in vm.exec_fn(m, cands[0], [a[2], Struct(('value serializer',), 'VSer')]):
+                if k != 'ret': outs.append((m2, k, r)); continue
+                if r.name != 'Ok' or not (isinstance(r.f[0], Struct) and r.f[0].ty == 'VTree'): raise Unmodelled('serialize_with function that does not end in a primitive serializer call: %r' % (r,))
+                m2.log('entries', ('field', a[1].s, 'tree', r.f[0].f[0])); outs.append((m2, 'ret', OK(UNIT)))
+            return outs
         log(m, 'field', a[1].s, ty, v); return ret(m, OK(UNIT))
+    def vtree(t): return OK(Struct((t,), 'VTree'))
+    def ser_prim(vm, m, c, a):
+        n = re.search(r'serialize_(\w+?)(?:::<.*>)?$', c).group(1)
+        if n == 'none': return ret(m, vtree(('none',)))
+        if n == 'unit': return ret(m, vtree(('unit',)))
+        if n == 'some':
+            x = deref_val(vm, m, a[1])
+            if isinstance(x, (Struct, Enum, Seq)): raise Unmodelled('serialize_some of a compound value')
+            return ret(m, vtree(('some', x)))
+        if n in ('f64', 'f32', 'u64', 'u32', 'u16', 'u8', 'i64', 'i32', 'i16', 'i8', 'bool', 'str', 'char'): return ret(m, vtree(('prim', deref_val(vm, m, a[1]))))
+        return NotImplemented
+    vm.add_model(r'^<(?:__)?S as Serializer>::serialize_(none|unit|some|f64|f32|u64|u32|u16|u8|i64|i32|i16|i8|bool|str|char)(?:::<.*>)?$', ser_prim)
+    vm.add_model(r'^<(f64|f32|u64|u32|usize|i64|i32|bool) as (?:\w+::)*Serialize>::serialize::<', lambda vm, m, c, a: ret(m, vtree(('prim', deref_val(vm, m, a[0])))))
     vm.add_model(r' as SerializeStruct>::serialize_field::<', ser_field)
     vm.add_model(r' as SerializeStruct>::skip_field$', lambda vm, m, c, a: (log(m, 'skip', a[1].s), ret(m, OK(UNIT)))[1])
     vm.add_model(r' as SerializeStruct>::end$', lambda vm, m, c, a: (log(m, 'end'), ret(m, OK(Struct(('done',), 'SerOk'))))[1])
-    vm.add_model(r'^<__S as Serializer>::serialize_unit_variant$', lambda vm, m, c, a: (log(m, 'unit_variant', a[1].s, a[2], a[3].s), ret(m, OK(Struct(('done',), 'SerOk'))))[1])
+    vm.add_model(r'^<(?:__)?S as Serializer>::serialize_unit_variant$', lambda vm, m, c, a: (log(m, 'unit_variant', a[1].s, a[2], a[3].s), ret(m, OK(Struct(('done',), 'SerOk'))))[1])
     def newtype_variant(vm, m, c, a):
         log(m, 'newtype_variant', a[1].s, a[2], a[3].s, deref_val(vm, m, a[4])); return ret(m, OK(Struct(('done',), 'SerOk')))
-    vm.add_model(r'^<__S as Serializer>::serialize_newtype_variant::<', newtype_variant)
+    vm.add_model(r'^<(?:__)?S as Serializer>::serialize_newtype_variant::<', newtype_variant)
     # ---- Deserializer side: replays m.ghost['replay'] = list of (name, value)
     def visit_str_of(c):
         # the __Field visitor of the derive in whose visit_map / visit_enum we are: same impl span prefix
@@ -75,9 +111,30 @@ def _install(vm, mir, fns):
         rp = m.ghost['replay']; k = m.ghost['pos']; m.ghost['pos'] = k + 1
         ty = re.search(r'next_value::<(.*)>$', c).group(1)
         if ty.endswith('IgnoredAny'): m.log('ignored', rp[k][0]); return ret(m, OK(Struct((), 'IgnoredAny')))
+        if '__DeserializeWith' in ty:
+            # `deserialize_with` / `with`: the wrapper's Deserialize impl (crate MIR) calls the user's function on a value-level deserializer
+            cands = [f for n_, f in fns.items() if n_.endswith('::deserialize') and '__DeserializeWith' in f.parse().ret]
+            if len(cands) > 1: cands = [f for f in cands if '::visit_map::' in f.name] or cands      # visit_seq has its own copy of the wrapper
+            if len(cands) > 1:
+                # one wrapper per `with` field: take the one whose return type is the one asked for
+                c2 = [f for f in cands if _norm(f.ret).find(_norm(ty).split('::')[-1]) >= 0]; cands = c2 if len(c2) == 1 else cands
+            if len(cands) != 1: raise Unmodelled('deserialize_with wrapper: %d candidates' % len(cands))
+            return vm.exec_fn(m, cands[0], [Struct((_to_tree(rp[k]),), 'VDe')])
+        if rp[k][1] == 'tree':
+            back = _from_tree(rp[k][2], ty)
+            if back is None: return ret(m, ERR(Struct(('the written value tree cannot be read as', ty, str(rp[k][2])[:60]), 'DeError')))
+            return ret(m, OK(back))
         if _norm(ty) != _norm(rp[k][1]): return ret(m, ERR(Struct(('type mismatch', rp[k][0], ty, rp[k][1]), 'DeError')))
         return ret(m, OK(rp[k][2]))
     vm.add_model(r'^<__A as MapAccess<\'_>>::next_value::<', next_value)
+    def de_prim(vm, m, c, a):
+        # serde's own Deserialize impls for primitives and Option, on the value-level deserializer of a self-describing format
+        ty = _norm(re.match(r'^<(.*) as (?:\w+::)*Deserialize<', c).group(1)); d = a[0]
+        if not (isinstance(d, Struct) and d.ty == 'VDe'): return NotImplemented
+        r = _read_tree(vm, d.f[0], ty)
+        if isinstance(r, str): return ret(m, ERR(Struct((r,), 'DeError')))
+        return ret(m, OK(r))
+    vm.add_model(r'^<(?:std::option::)?(?:Option<)?(?:f64|f32|u64|u32|usize|i64|i32|bool)>? as (?:\w+::)*Deserialize<\'_>>::deserialize::<', de_prim)
     def missing(vm, m, c, a):
         from ..mir import split_top
         g = re.search(r'missing_field::<(.*)>$', c); targs = [t.strip() for t in split_top(g.group(1))] if g else []
@@ -266,3 +323,35 @@ def _field_variants(fns):
         nums |= {int(x) for x in re.findall(r'__Field::__field(\d+)', txt)}
         ignore = ignore or '__Field::__ignore' in txt
     return ['__field%d' % i for i in sorted(nums)] + (['__ignore'] if ignore else [])
+
+
+INTS = ('u8', 'u16', 'u32', 'u64', 'usize', 'i8', 'i16', 'i32', 'i64', 'isize')
+def _to_tree(entry):
+    """the value tree of a recorded entry (name, type, value): what a self-describing format holds for it"""
+    if entry[1] == 'tree': return entry[2]
+    v = entry[2]
+    if isinstance(v, Enum) and v.ty == 'Option': return ('some', v.f[0]) if v.name == 'Some' else ('none',)
+    return ('prim', v)
+
+def _read_tree(vm, tree, ty):
+    """serde's Deserialize for `ty` applied to a value tree; a string is an error.  A self-describing format hands an integer to a floating-point
+    visitor by conversion (and the reverse): for 64-bit integers that conversion is lossy, which is reported as such"""
+    if ty.startswith('Option<'):
+        if tree[0] == 'none': return NONE()
+        inner = _read_tree(vm, ('prim', tree[1]) if tree[0] == 'some' else tree, ty[len('Option<'):-1])
+        return inner if isinstance(inner, str) else SOME(inner)
+    if tree[0] != 'prim': return 'expected a %s, found %s' % (ty, tree[0])
+    x = tree[1]
+    if ty in ('f64', 'f32'):
+        if isinstance(x, Fl): return x
+        return 'an integer entry is read through a floating-point visitor: integers above 2^53 do not survive the conversion'
+    if ty in INTS:
+        if isinstance(x, Fl): return 'a floating-point entry is read through an integer visitor'
+        if isinstance(x, bool) or z3.is_bool(x): return 'a boolean entry is read through an integer visitor'
+        return x
+    if ty == 'bool': return x if (isinstance(x, bool) or z3.is_bool(x)) else 'expected a boolean'
+    return 'no value-level reader for %s' % ty
+
+def _from_tree(tree, ty):
+    r = _read_tree(None, tree, _norm(ty))
+    return None if isinstance(r, str) else r
